@@ -1,0 +1,11 @@
+//go:build verif
+
+package shrinker
+
+// VerifNThread reports the number of running shrinker threads.
+func (shrinkst *ShrinkerSt) VerifNThread() uint32 {
+	shrinkst.mu.Lock()
+	n := shrinkst.nthread
+	shrinkst.mu.Unlock()
+	return n
+}
